@@ -20,6 +20,10 @@ pub enum Strategy {
     /// follow `decisions` (index into the candidate list at each decision point), then default 0
     /// (= stay). `preemptions` bounds voluntary switches beyond the prescribed prefix.
     Prescribed { decisions: Vec<u32>, preemptions: u32 },
+    /// PCT-style: random thread priorities, the runnable thread with the highest priority runs;
+    /// at `depth` random event indices (below `est_len`) the running thread drops to the lowest
+    /// priority. Gives long uninterrupted runs with few, randomly placed preemptions.
+    Pct { seed: u64, depth: u32, est_len: u64 },
 }
 
 struct State {
@@ -40,6 +44,9 @@ struct State {
     switches: u64,
     deadlock: Option<String>,
     last_site: Vec<&'static str>,
+    prio: Vec<i64>,
+    change_points: Vec<u64>,
+    next_low: i64,
 }
 
 pub struct Sched {
@@ -70,6 +77,14 @@ impl Sched {
         let (seed, pre) = match &strategy {
             Strategy::Random { seed, .. } => (*seed, 0),
             Strategy::Prescribed { preemptions, .. } => (1, *preemptions),
+            Strategy::Pct { seed, .. } => (*seed, 0),
+        };
+        let mut prng = Rng::new(seed ^ 0x5EED);
+        let mut prio: Vec<i64> = (0..n as i64).map(|i| 1000 + i).collect();
+        prng.shuffle(&mut prio);
+        let change_points: Vec<u64> = match &strategy {
+            Strategy::Pct { depth, est_len, .. } => (0..*depth).map(|_| prng.below((*est_len).max(1))).collect(),
+            _ => Vec::new(),
         };
         Box::new(Sched {
             st: Mutex::new(State {
@@ -88,6 +103,9 @@ impl Sched {
                 switches: 0,
                 deadlock: None,
                 last_site: vec!["<start>"; n],
+                prio,
+                change_points,
+                next_low: 0,
             }),
             cv: Condvar::new(),
         })
@@ -106,6 +124,16 @@ impl Sched {
                 } else {
                     st.rng.usize(cands.len())
                 }
+            }
+            Strategy::Pct { .. } => {
+                // highest priority among the candidates
+                let mut best = 0;
+                for (i, &t) in cands.iter().enumerate() {
+                    if st.prio[t] > st.prio[cands[best]] {
+                        best = i;
+                    }
+                }
+                best
             }
             Strategy::Prescribed { decisions, .. } => {
                 let d = if st.next_decision < decisions.len() {
@@ -139,6 +167,10 @@ impl Sched {
         }
         debug_assert_eq!(st.current, me);
         st.events += 1;
+        if st.change_points.contains(&st.events) {
+            st.next_low -= 1;
+            st.prio[me] = st.next_low;
+        }
         st.sig = (st.sig ^ (site_hash(site).wrapping_add((me as u64).wrapping_mul(0x9E3779B97F4A7C15)))).wrapping_mul(0x100000001b3);
         st.last_site[me] = site;
         let is_blocked = site.ends_with(":blocked");
